@@ -157,28 +157,19 @@ Proof.
     try (eapply Forall_assign; [exact H| |eassumption]);
     try match goal with |- wf (with_items ?s []) =>
           apply wf_sub; [ndreg|constructor|contradiction|cbn; lia] end.
-  - apply wf_empty.
-  - apply wf_empty.
-  - apply wf_rimm. ndreg.
-  - eapply wf_r_to_rdataset; eassumption.
-  - eapply wf_r_from_list; eassumption.
-  - apply wf_radd. ndreg.
-  - apply wf_radd. ndreg.
-  - apply wf_update_ttl. ndreg.
-  - apply wf_update_ttl. ndreg.
-  - apply wf_sub; [ndreg|apply ND_sdel, wf_nd; ndreg|intros y Hy; eapply In_sdel, Hy|apply length_sdel_le].
-  - apply wf_sub; [ndreg|apply ND_sdel, wf_nd; ndreg|intros y Hy; eapply In_sdel, Hy|apply length_sdel_le].
-  - apply wf_sub; [ndreg|apply ND_sdel, wf_nd; ndreg|intros y Hy; eapply In_sdel, Hy|apply length_sdel_le].
-  - apply wf_sub; [ndreg|apply ND_sdel, wf_nd; ndreg|intros y Hy; eapply In_sdel, Hy|apply length_sdel_le].
-  - apply wf_sub; [ndreg|eapply ND_spop; [apply wf_nd; ndreg|eassumption]
-                  |eapply spop_sub; eassumption|eapply spop_len; eassumption].
-  - apply wf_sub; [ndreg|eapply ND_spop; [apply wf_nd; ndreg|eassumption]
-                  |eapply spop_sub; eassumption|eapply spop_len; eassumption].
-  - apply wf_r_copy. ndreg.
-  - apply wf_r_inplace; [ndreg|ndreg|]. intros E. apply Nat.eqb_eq in E. subst. congruence.
-  - eapply wf_r_func; [| |eassumption]; ndreg.
-  - apply wf_sub; [ndreg|apply ND_sdel, wf_nd; ndreg|intros y Hy; eapply In_sdel, Hy|apply length_sdel_le].
-  - apply wf_sub; [ndreg|apply ND_sdel, wf_nd; ndreg|intros y Hy; eapply In_sdel, Hy|apply length_sdel_le].
+  all: first
+    [ apply wf_empty
+    | apply wf_rimm; ndreg
+    | eapply wf_r_to_rdataset; eassumption
+    | eapply wf_r_from_list; eassumption
+    | apply wf_radd; ndreg
+    | apply wf_update_ttl; ndreg
+    | apply wf_r_copy; ndreg
+    | apply wf_r_inplace; [ndreg|ndreg|intros E; apply Nat.eqb_eq in E; subst; congruence]
+    | eapply wf_r_func; [| |eassumption]; ndreg
+    | apply wf_sub; [ndreg|apply ND_sdel, wf_nd; ndreg|intros y Hy; eapply In_sdel, Hy|apply length_sdel_le]
+    | apply wf_sub; [ndreg|eapply ND_spop; [apply wf_nd; ndreg|eassumption]
+                    |eapply spop_sub; eassumption|eapply spop_len; eassumption] ].
 Qed.
 
 (* every reachable state: all rdatasets well-formed *)
